@@ -25,7 +25,7 @@ func newQPSLimiter(maxQPS int32, qpsInterval time.Duration) *qpsLimiter {
 		once:     once,
 		ticker:   time.NewTicker(qpsInterval),
 	}
-	go q.startTicker()
+	go q.startTicker(q.ticker)
 	return q
 }
 
@@ -38,20 +38,22 @@ func (q *qpsLimiter) getInterval() time.Duration {
 }
 
 func (q *qpsLimiter) update(maxQPS int32, qpsInterval time.Duration) {
-	if maxQPS == q.limit && qpsInterval == q.interval {
+	// limit and once are read by the ticker goroutine (updateToken) and by getLimit
+	// without the caller's lock: they are only accessed atomically.
+	if maxQPS == atomic.LoadInt32(&q.limit) && qpsInterval == q.interval {
 		return
 	}
-	q.limit = maxQPS
+	atomic.StoreInt32(&q.limit, maxQPS)
 	once := maxQPS / int32(time.Second/qpsInterval)
 	if once == 0 {
 		once = 1
 	}
-	q.once = once
+	atomic.StoreInt32(&q.once, once)
 	if qpsInterval != q.interval {
 		q.interval = qpsInterval
 		q.stopTicker()
 		q.ticker = time.NewTicker(qpsInterval)
-		go q.startTicker()
+		go q.startTicker(q.ticker)
 	}
 }
 
@@ -63,8 +65,10 @@ func (q *qpsLimiter) take() bool {
 	return atomic.AddInt32(&q.tokens, -1) >= 0
 }
 
-func (q *qpsLimiter) startTicker() {
-	ch := q.ticker.C
+// startTicker refills tokens on every tick of the given ticker (passed by the goroutine
+// that created it, so that a later update replacing q.ticker is not read here).
+func (q *qpsLimiter) startTicker(ticker *time.Ticker) {
+	ch := ticker.C
 	for range ch {
 		q.updateToken()
 	}
@@ -77,13 +81,14 @@ func (q *qpsLimiter) stopTicker() {
 func (q *qpsLimiter) updateToken() {
 	for {
 		old := atomic.LoadInt32(&q.tokens)
+		once, limit := atomic.LoadInt32(&q.once), atomic.LoadInt32(&q.limit)
 		v := old
 		if v < 0 {
-			v = q.once
-		} else if v+q.once > q.limit {
-			v = q.limit
+			v = once
+		} else if v+once > limit {
+			v = limit
 		} else {
-			v = v + q.once
+			v = v + once
 		}
 		verifGate("qps.update.loaded")
 		// Tokens taken between the load and the store must not be handed out again:
